@@ -94,11 +94,22 @@ class PollWorld(World):
         names = set()
         for peer in self.polled.values():
             names |= set(peer)
-        for v in vals:
+        found = []
+
+        def dig(v, d=0):
             v = interp.deref_all(v)
-            if v is not None and v[0] == 'key' and str(v[1]) in names:
-                return str(v[1])
-        return None
+            if v is None or d > 5:
+                return
+            if v[0] == 'key' and str(v[1]) in names:
+                found.append(str(v[1]))
+            elif v[0] in ('adt', 'closure', 'tuple'):
+                # (the keyspace may travel inside a private struct — a plan, a peer — rather than as a bare argument)
+                for c in (v[3] if v[0] == 'adt' else v[2] if v[0] == 'closure' else v[1]):
+                    dig(c.v, d + 1)
+        for v in vals:
+            dig(v)
+        ks = sorted(set(found))
+        return ks[0] if len(ks) == 1 else None
 
     def make_diff(self, ty, peer, ks):
         a = self.facts.adts.get(ty_head(ty))
@@ -162,13 +173,25 @@ class PollWorld(World):
             p = self.peer_of(interp, args)
             ks = self.ks_of(interp, args)
             lists = []
-            for a in args:
-                v = interp.deref_all(a)
-                if v is not None and v[0] == 'vec':
+
+            def digl(v, d=0):
+                v = interp.deref_all(v)
+                if v is None or d > 5:
+                    return
+                if v[0] == 'vec':
                     for x in v[1]:
                         x = interp.deref_all(x.v if isinstance(x, Cell) else x)
                         if x is not None and x[0] == 'opaque' and str(x[1]).startswith('doc:'):
                             lists.append(str(x[1]))
+                        else:
+                            digl(x, d + 1)
+                elif v[0] == 'opaque' and str(v[1]).startswith('doc:'):
+                    lists.append(str(v[1]))
+                elif v[0] in ('adt', 'tuple'):
+                    for c in (v[3] if v[0] == 'adt' else v[1]):
+                        digl(c.v, d + 1)
+            for a in args:
+                digl(a)
             self.events.append(('sync', self.round, p, ks, tuple(lists)))
             if (p, ks) in self.fails:
                 return ('future', 'ready', err(('opaque', 'sync-error')))
